@@ -73,6 +73,9 @@ func (d *driver) toCase(sc *Scenario) kit.Case {
 	for _, a := range d.acts {
 		tags["a:"+strings.SplitN(a, " ", 2)[0]] = true
 	}
+	for t := range d.tags {
+		tags[t] = true
+	}
 	var tl []string
 	for t := range tags {
 		tl = append(tl, t)
@@ -112,6 +115,8 @@ func generate(r *kit.Rng, steps int) (*Scenario, kit.Case, error) {
 				switch {
 				case strings.HasPrefix(m, "start"):
 					w = 8
+				case strings.HasPrefix(m, "next") && strings.HasSuffix(m, ":rf"):
+					w = 6 // most of them find the key in a volatile layer and never reach the storage
 				case strings.HasPrefix(m, "next"):
 					w = 10
 				case m == "flush":
